@@ -177,8 +177,16 @@ def evaluate(desc, R):
             if not p["class_ok"]:
                 V.append({"class": "classification-changed-by-analysis", "target": None, "observed": {"reader": None, "writers": None, "schedule": si, "pass": pi}})
             ranset = set(ran)
+            spec = desc["schedules"][si]["passes"][pi] if si < len(desc.get("schedules") or []) and pi < len(desc["schedules"][si].get("passes") or []) else {}
             for u in meta:
                 got = [tuple(x) for x in p["V"].get(u, [])]
+                if u not in ranset and spec.get("all", True) and not meta[u][2] and meta[u][0] not in (spec.get("skip") or []) and 1 <= meta[u][0] <= 7:
+                    # an all-phases pass analyses every enabled rule of every phase that is not
+                    # skipped: "disabling D removes exactly D's violations" - not those of others
+                    if ("not-analysed", u) not in seen:
+                        seen.add(("not-analysed", u))
+                        V.append({"class": "report-depends-on-schedule", "target": u, "observed": {"reader": u, "writers": None, "note": "enabled rule was not analysed in an all-phases pass", "schedule": si, "pass": pi}})
+                    continue
                 if u not in ranset:
                     if got:
                         V.append({"class": "report-depends-on-schedule", "target": u, "observed": {"reader": u, "writers": None, "note": "rule reports although it was not analysed", "schedule": si, "pass": pi}})
